@@ -147,6 +147,17 @@ def cases(rng, tier):
     for n in depths:
         prog, want = nontail(n)
         yield Case(program=prog, tag='nontail', monitor='c05_value', data=('nontail', want, True), timeout=120, fuel=4 * 10 ** 7)
+    # after the evaluator has reported its limit (and after a caught / uncaught exception deep in the stack), in the same
+    # process, loops and recursions below the limit run as if nothing had happened (seeded change S05h counted frames in a
+    # process-wide counter that an aborted evaluation never gave back)
+    too_deep = nontail(6000)[0]
+    deep_throw = f"{enc(3000)} (ㄴ ㄷㅂㅎㄴ ㄷㅈㅎㄴ) (ㄱㅇㄱ ((ㄱㅇㄱ ㄴㄱ ㄷㅎㄷ) ㄱㅇ ㅎㄴ) ㄷㅎㄷ) {COND} ㅎㄷ ㅎ ㅎㄴ"
+    for pre_name, pre in (('after-limit', (too_deep,)), ('after-limit-twice', (too_deep, too_deep)), ('after-deep-throw', (deep_throw,))):
+        for name, mk, n in (('countdown', countdown, 10), ('countdown', countdown, 3000), ('accum', accum, 500), ('nontail', nontail, 5),
+                            ('nontail', nontail, 2400), ('rbind', rbind, 200)):
+            prog, want = mk(n)
+            yield Case(program=prog, before=pre, tag=f'{name}-{pre_name}', monitor='c05_value', data=(name, want, False), format_io=True,
+                       timeout=120, fuel=400 * n + 10 ** 7, nontrivial=True)
     # host-recursion families (known findings beyond ≈ 500)
     for n in [10, 100, 300] + ([1000] if True else []):
         for name, mk in (('lbind', lbind), ('nestfmt', nestfmt)):
